@@ -14,6 +14,7 @@ RULE = (
     "of the matching volume region, per-cell closure and flux with only_surface=False, outwardness against the owning "
     "cell's centroid, face selection against an independent face table derived from the element's reference "
     "coordinates. Non-trivial: >= 2 cells along some axis (interior faces exist) and a perturbed/curved surface."
+    ' Masks are handed over as boolean arrays or as point indices.'
 )
 ASSUMPTIONS = [
     "volume regions (C06) and element reference coordinates (C04) are used to build the oracle",
